@@ -86,6 +86,8 @@ class ShapeEval:
     def loop_tag_of(self, loop: ast.For, at) -> object | None:
         """Axis tag a ``for`` loop ranges over."""
         it = loop.iter
+        if getattr(loop, "_fake", False):
+            loop = at  # a comprehension: its iterable is evaluated at the enclosing statement
         if isinstance(it, ast.Call) and norm(it.func) in ("range", "nb.prange", "numba.prange") and len(it.args) == 1:
             s = self.ev(it.args[0], loop)
             if s and s[0] == "size":
@@ -164,7 +166,12 @@ class ShapeEval:
             return a or b
         if isinstance(e, (ast.ListComp, ast.GeneratorExp)):
             g = e.generators[0]
+            # [X[i] for i in <order>]: a re-ordering / selection of the list X keeps the layout of X
+            if len(e.generators) == 1 and not g.ifs and isinstance(g.target, ast.Name) and isinstance(e.elt, ast.Subscript) \
+                    and isinstance(e.elt.value, ast.Name) and isinstance(e.elt.slice, ast.Name) and e.elt.slice.id == g.target.id:
+                return self.ev(e.elt.value, at)
             fake = ast.For(target=g.target, iter=g.iter, body=[], orelse=[])
+            fake._fake = True  # type: ignore[attr-defined]
             tag = self.loop_tag_of(fake, at)
             saved = dict(self.loop_tags)
             for t in ast.walk(g.target):
